@@ -16,6 +16,7 @@ CONSTANTS
   Multis = {0}
   Queries <- MCQueriesQ
   MaxCount = 12
+  Tracks = {0}
   Acts = {"move"}
 INIT Init
 NEXT Next
